@@ -15,7 +15,7 @@ BUILTINS = {'len', 'abs', 'min', 'max', 'range', 'slice', 'isinstance', 'int', '
             'sum', 'set', 'dict', 'frozenset', 'id', 'type', 'hash', 'getattr', 'repr', 'print', 'zip_longest', 'chain'}
 EXC_NAMES = {'RuntimeError', 'KeyError', 'IndexError', 'ValueError', 'TypeError', 'NotImplementedError',
              'StopIteration', 'AttributeError', 'Exception', 'ZeroDivisionError', 'LookupError'}
-SPECFNS = {'ufe', 'ub', 'kind_is', 'np_result_type', 'W', 'frozen', 'same_array', 'dtype_class', 'implies', 'iff', 'forall', 'exists', 'forall_in', 'exists_in', 'old', 'cond', 's_start', 's_stop',
+SPECFNS = {'holds', 'ufe', 'ub', 'kind_is', 'np_result_type', 'W', 'frozen', 'same_array', 'dtype_class', 'implies', 'iff', 'forall', 'exists', 'forall_in', 'exists_in', 'old', 'cond', 's_start', 's_stop',
            's_step', 'nth', 'in_slice', 'length', 'at', 'is_none', 'some', 'slice_len_le', 'true', 'false',
            'at_or', 'R_len', 'sum_to'}
 
@@ -371,8 +371,26 @@ class ModuleEnv:
             return eng.need_int(args[0], st, node)
         if name == 'bool' and len(args) == 1:
             return VBool(eng.truth(args[0], st))
-        if name in ('list', 'tuple', 'iter') and len(args) == 1 and isinstance(args[0], VList):
+        if name == 'iter' and len(args) == 1 and isinstance(args[0], (VList, VSeq)):
+            n_, g_ = eng.as_sequence(args[0], st)
+            return VConst(('iterator', n_, g_, z3.IntVal(0)))      # one-shot iterator: (length, getter, cursor)
+        if name == 'next' and len(args) >= 1 and isinstance(args[0], VConst) and isinstance(args[0].py, tuple) and args[0].py[0] == 'iterator' \
+                and isinstance(node.args[0], ast.Name):
+            _, n_, g_, pos = args[0].py
+            fkey = ('next', node.lineno, node.col_offset)
+            d = eng.decide(st, pos >= n_, fkey)
+            if d is None:
+                raise ForkReq(pos >= n_, fkey)
+            if d is True:
+                if len(args) > 1:
+                    return args[1]
+                raise RaiseReq('StopIteration')
+            st.env[node.args[0].id] = VConst(('iterator', n_, g_, pos + 1))
+            return g_(pos)
+        if name in ('list', 'tuple') and len(args) == 1 and isinstance(args[0], VList):
             return args[0]      # value semantics: a copy is indistinguishable (no aliasing in the model)
+        if name == 'list' and len(args) == 1 and isinstance(args[0], VTuple):
+            return list_literal(list(args[0].items))
         if name == 'list' and not args:
             return VList(0, None, [])
         if name == 'tuple' and len(args) == 1 and isinstance(args[0], VTuple):
